@@ -30,12 +30,13 @@ def plan(tier, seed):
         for outer in range(cases.N_UNARY_STMT):
             for s in range(0, n2, 400):
                 recipes.append({"k": "stmts3", "outer": outer, "start": s, "count": 400, "seed": seed + s})
-    nrand = 250 if tier == "quick" else 6000
+    nrand = 900 if tier == "quick" else 6000
     for i in range(nrand):
         recipes.append({"k": "rstmts", "seed": seed * 100003 + i, "count": 3, "depth": 2 + i % 5,
                         "render": ["min", "rand"][i % 2], "style": ["single", "random", "minimal", "lines", "marked"][i % 5]})
     for i in range(nrand // 2):
         recipes.append({"k": "tu", "seed": seed * 100019 + 500000 + i})
+    recipes.append({"k": "k31", "seed": seed})
     nsh = 16
     return [{"name": f"stmt-{i}", "recipes": recipes[i::nsh]} for i in range(nsh)]
 
@@ -45,6 +46,8 @@ def _count(r, case):
         return len(case.model["items"][0]["body"]["items"])
     if r["k"] == "rstmts":
         return r["count"]
+    if r["k"] == "k31":
+        return 4
     return 1
 
 
